@@ -18,7 +18,10 @@ Two kinds of cases (structural models, vp/gen/c15_pkgs.py):
   missing dependency at import time (any placement), or the top-level name is missing / only importable / a garbage
   extension file. Operations: griffe.load, or the direct inspection entry point `griffe.inspect(name, filepath=..., parent=...)`
   on one module (the faulting one when possible), with and without explicit import_paths (for inspect only the sys.path
-  clause is judged). Oracle: whatever griffe.load returns or raises, sys.path is the same list object with the same
+  clause is judged). Optionally one module body tampers with sys.path at import time (rebinds it to a new list, mutates it
+  in place, replaces it by a copy), alone or together with the import fault. Both kinds: the loader is either created by
+  griffe.load(**options) or built with the *opposite* inspection settings and switched through its public attributes
+  `allow_inspection` / `force_inspection` before loading. Oracle: whatever griffe.load returns or raises, sys.path is the same list object with the same
   contents, and only LoadingError / ImportError (incl. ModuleNotFoundError) escape — what `GriffeLoader.load` and
   `dynamic_import` document.
 """
@@ -46,7 +49,8 @@ RULE = (
     "{None,True,False}, find_stubs_package, store_source, try_relative_path, by name/path/sys.path; 1/6 of them committed to a scratch git "
     "repository and loaded through griffe.load_git(ref='HEAD', allow_inspection=False)) with inspection excluded, and fault "
     "cases with inspection allowed/forced where one module (any placement) raises RuntimeError/SystemExit/imports a missing dependency or "
-    "the top-level name is missing/only importable, operation griffe.load or griffe.inspect(name, filepath=..) with/without import_paths. non-trivial = static case with >=3 generated modules and alias resolution requested, "
+    "the top-level name is missing/only importable, optionally a module body that rebinds/mutates/copies sys.path at import time; inspection "
+    "settings given as arguments or set as attributes on an existing GriffeLoader; operation griffe.load or griffe.inspect(name, filepath=..) with/without import_paths. non-trivial = static case with >=3 generated modules and alias resolution requested, "
     "or fault case with an injected fault / unfindable top-level; distinct = distinct case model (packages, options, fault)"
 )
 ASSUMPTIONS = [
@@ -251,6 +255,16 @@ def check_case(case) -> list[Fail]:
             elif insp is not None:
                 leaf, filepath, parent, _dotted = insp
                 result = griffe.inspect(leaf, filepath=filepath, parent=parent, import_paths=[str(x) for x in roots] if op == "inspect_paths" else None)
+            elif case.get("construct") == "attrs":
+                # the loader is built with the opposite inspection settings; the public attributes are set afterwards
+                # (then exactly what griffe.load() does: load, resolve_aliases)
+                ctor = {"search_paths": kwargs["search_paths"], "store_source": kwargs["store_source"]}
+                loader = griffe.GriffeLoader(**ctor) if static else griffe.GriffeLoader(allow_inspection=False, **ctor)
+                loader.allow_inspection = kwargs["allow_inspection"]
+                loader.force_inspection = kwargs["force_inspection"]
+                result = loader.load(objspec, submodules=kwargs["submodules"], try_relative_path=kwargs["try_relative_path"], find_stubs_package=kwargs["find_stubs_package"])
+                if kwargs["resolve_aliases"]:
+                    loader.resolve_aliases(implicit=kwargs["resolve_implicit"], external=kwargs["resolve_external"])
             else:
                 result = griffe.load(objspec, **kwargs)
         except BaseException as e:  # noqa: BLE001  (SystemExit must not kill the check)
@@ -279,6 +293,10 @@ def check_case(case) -> list[Fail]:
         what = f"griffe.inspect({insp[0]!r}, filepath=<{insp[3]}>, parent={'None' if insp[2] is None else insp[2].path!r}, import_paths={'[roots]' if op == 'inspect_paths' else 'None'})"
     else:
         what = _what_load(op, objspec, kwargs)
+        if op == "load" and case.get("construct") == "attrs":
+            what = f"GriffeLoader({'' if static else 'allow_inspection=False'}); set .allow_inspection/.force_inspection; then like " + what
+    if r.get("tamper_module"):
+        what += f" [module {r['tamper_module']} does sys.path {case['syspath_mod']['how']} at import time]"
 
 
     # ---- clause: sys.path restored (both kinds)
@@ -354,7 +372,7 @@ def check_case(case) -> list[Fail]:
         except Exception:  # noqa: BLE001
             ext_loaded = False
     _LAST.update(fault_hit=bool(r["fault_module"]) and r["fault_module"] in executed, ext_loaded=ext_loaded)
-    _LAST.update(op=op)
+    _LAST.update(op=op, tamper_hit=bool(r.get("tamper_module")) and r["tamper_module"] in executed)
     _LAST.update(outcome=outcome, executed=len(executed), n_modules=sum(len(m) for m in r["modules"]), n_decoys=len(r["decoys"]), fault_module=r["fault_module"])
     shutil.rmtree(wd, ignore_errors=True)
     return fails
@@ -380,6 +398,7 @@ def describe(case):
         f"{kind}:npkgs:{len(case['pkgs'])}",
         f"{kind}:outcome:{info.get('outcome')}",
         f"{kind}:entry:{info.get('op')}",
+        f"{kind}:construct:{case.get('construct', 'kwargs') if info.get('op') == 'load' else 'n/a'}",
         f"opt:submodules={o['submodules']}",
         f"opt:resolve_aliases={o['resolve_aliases']}",
         f"opt:resolve_implicit={o['resolve_implicit']}",
@@ -413,10 +432,12 @@ def describe(case):
         classes.append(f"fault:type:{f['type'] if f else 'none'}")
         classes.append(f"fault:force={bool(case.get('force'))}")
         classes.append("fault:bodies-ran" if info.get("executed") else "fault:nothing-imported")
+        if case.get("syspath_mod"):
+            classes.append(f"fault:sys.path-{case['syspath_mod']['how']}:" + ("ran" if info.get("tamper_hit") else "not-reached") + ("+import-fault" if info.get("fault_hit") else ""))
         if f:
             classes.append("fault:hit(faulting body ran)" if info.get("fault_hit") else "fault:not-reached")
         # an injected fault only counts when the faulting module body actually started to run
-        nontrivial = bool(info.get("fault_hit")) or pkg0["layout"] in ("pyc", "so") or case["target"] == "missing"
+        nontrivial = bool(info.get("fault_hit")) or bool(info.get("tamper_hit")) or pkg0["layout"] in ("pyc", "so") or case["target"] == "missing"
     sample = None
     if nontrivial:
         sample = {"case": case, "outcome": info.get("outcome"), "fault_module": info.get("fault_module")}
